@@ -224,6 +224,8 @@ class SeqT(T):
         def make(p):
             v = VList(SymSeq(ln(p), lambda k, p=p: at(list(p) + [k]), elem), kind)
             v.labels = None
+            if not p:
+                v.sid = name
             return v
         return make
 
